@@ -340,3 +340,5 @@ package tchannel
 // every connection when it is created, whatever the channel's options say at
 // that moment (they can be changed through Channel.ConnectionOptions()).
 //@ structinv (c *Connection) established newConnection : c.opts.HealthChecks.FailuresToClose != 0
+//@ func (ch *Channel) newConnection(baseCtx context.Context, conn net.Conn, initialID uint32, outboundHP string, remotePeer PeerInfo, remotePeerAddress peerAddressComponents, events connectionEvents) (c *Connection)
+//@   property C19
